@@ -196,6 +196,14 @@ class NT(NamedTuple):
     tags: List[int] = []  # noqa: RUF012
 
 
+class DeepDefaults(NamedTuple):
+    """Mutable literal defaults that are deeply nested / long when written out."""
+    a: int = 0
+    cfg: Dict[str, List[Dict[str, int]]] = {"a": [{"k": 1}, {"j": 2}]}  # noqa: RUF012
+    long: Dict[str, List[int]] = {"alpha_alpha_alpha_alpha": [1, 2, 3, 4, 5, 6, 7, 8, 9, 10],  # noqa: RUF012
+                                  "beta_beta_beta_beta_beta": [11, 12, 13, 14, 15, 16, 17, 18, 19, 20]}
+
+
 class TD(TypedDict, total=False):
     a: List[int]
     b: Dict[str, int]
@@ -365,6 +373,17 @@ class WithExtra4:
 @dataclass
 class TupHolder:
     items: Tuple[int, typing.Unpack[Tuple[str, ...]]]
+
+
+LitBigT = Literal["red", "green", "blue", "black", "white", "grey"]
+
+
+@dataclass
+class Pixel:
+    color: LitBigT
+    shade: Shade = Shade.DARK
+    tint: Color = Color.R
+    perm: Perm = Perm.RD
 
 
 def _make_dup(tag_value):
@@ -605,6 +624,10 @@ _t("failing", Unsupported=Unsupported, FwdUser=FwdUser, CallableT=typing.Callabl
    ListTupUnpack=List[Tuple[int, typing.Unpack[Tuple[str, ...]]]], FlagGap=FlagGap, UserFG=UserFG, GroupFG=GroupFG, ListFlagGap=List[FlagGap])
 if PM is not None:
     _t("model", PM=PM)
+# types whose failed loads carry a structured payload (allowed values, variants) the client can get hold of
+_t("model", DeepDefaults=DeepDefaults, ListDeepDefaults=List[DeepDefaults])
+_t("payload", LitBig=LitBigT, Pixel=Pixel, ListPixel=List[Pixel], ListShade=List[Shade], DictStrLitBig=Dict[str, LitBigT],
+   OptLitBig=Optional[LitBigT], ListPerm=List[Perm])
 
 RECURSIVE_TYPES = [n for n, f in FAMILY.items() if f == "recursive"]
 
@@ -625,6 +648,7 @@ CONFUSABLE_GROUPS = [
     ["PairIntStr", "PairStrInt", "PairBoolStr"], ["ListingA", "ListingB"], ["MBoxA", "MBoxB"],
     ["TupUnpack", "TupHolder", "ListTupUnpack"], ["LinkedInt", "LinkedStr", "LinkedBool"], ["TupIntStr", "TupBoolStr"],
     ["RA", "RB"], ["Node", "ListNode", "OptNode", "DictStrNode", "Holder"], ["int", "bool", "float", "Color", "Status"], ["Color", "Status"],
+    ["LitBig", "OptLitBig", "Pixel", "ListPixel", "DictStrLitBig"], ["Shade", "ListShade", "LitShade"], ["Perm", "ListPerm"],
     ["Unsupported", "ListUnsupported", "CallableT"], ["FlagGap", "UserFG", "GroupFG", "ListFlagGap"], ["bytes", "bytearray", "BytesIO", "IOBytes"],
 ]
 PARTNERS: Dict[str, List[str]] = {}
@@ -695,6 +719,13 @@ DATA: Dict[str, Any] = {
     # a defaultdict is a legal mapping input; looking up a missing required key in it has a side effect
     "dd_m_b": collections.defaultdict(int, {"b": "y"}), "dd_m_a": collections.defaultdict(int, {"a": 1}),
     "dd_inner": collections.defaultdict(list, {"tags": ["t"]}),
+    "deep_full": {"a": 2, "cfg": {"z": [{"y": 3}]}, "long": {"q": [1]}}, "l_deep": [{}, {"a": 1}, {"cfg": {}}],
+    "sRed": "red", "sGrey": "grey", "sPink": "pink", "pixel": {"color": "grey", "shade": "dark", "tint": 1, "perm": 3},
+    "pixel_min": {"color": "red"}, "pixel_bad": {"color": "pink", "shade": "nope", "tint": 77, "perm": 64},
+    "pixel_bad2": {"color": "black", "shade": "dark", "tint": "x"},
+    "lpixel": [{"color": "grey"}, {"color": "white", "shade": "dark"}], "lpixel_bad": [{"color": "grey"}, {"color": "gray"}],
+    "lshade": ["dark", "dark"], "lshade_bad": ["dark", "darker"], "d_lit": {"k": "blue", "j": "grey"}, "d_lit_bad": {"k": "blu"},
+    "lperm": [1, 3], "lperm_bad": [1, 64],
 }
 
 # which data make a meaningful probe for which type (battery); every type additionally sees ATOMS
@@ -744,6 +775,10 @@ BATTERY: Dict[str, List[str]] = {
     "Unsupported": ["unsupported"], "FwdUser": ["fwd", "fwd_none"], "ListUnsupported": ["empty_l"],
     "FlagGap": ["i1"], "UserFG": ["m_a"], "GroupFG": ["m_a"], "ListFlagGap": ["l1"],
     "PM": ["pm"],
+    "DeepDefaults": ["empty_d", "m_a", "deep_full"], "ListDeepDefaults": ["l_deep"],
+    "LitBig": ["sRed", "sGrey", "sPink"], "OptLitBig": ["sGrey", "none", "sPink"], "Pixel": ["pixel", "pixel_min", "pixel_bad", "pixel_bad2"],
+    "ListPixel": ["lpixel", "lpixel_bad"], "ListShade": ["lshade", "lshade_bad"], "DictStrLitBig": ["d_lit", "d_lit_bad"],
+    "ListPerm": ["lperm", "lperm_bad"],
 }
 
 
@@ -845,6 +880,11 @@ OBJECTS: Dict[str, Any] = {
     "o_empty_list": lambda: [], "o_empty_dict": lambda: {},
     "o_csrc": lambda: CSrc(1, 2), "o_dupA": lambda: DupA(1), "o_dupB": lambda: DupB(2),
     "o_dsrcinner": lambda: {"p": SrcInner([1]), "q": SrcInner([2], {"k": [3]})},
+    "o_deep": lambda: DeepDefaults(), "o_deep_full": lambda: DeepDefaults(1, {"z": [{"y": 3}]}, {"q": [1]}),
+    "o_ldeep": lambda: [DeepDefaults(), DeepDefaults(2, {}, {})],
+    "o_grey": lambda: "grey", "o_pixel": lambda: Pixel("grey", Shade.DARK, Color.G, Perm.RD | Perm.WR),
+    "o_lpixel": lambda: [Pixel("red"), Pixel("white")], "o_lshade": lambda: [Shade.DARK], "o_d_lit": lambda: {"k": "blue"},
+    "o_lperm": lambda: [Perm.RD, Perm.RD | Perm.WR],
 }
 if PM is not None:
     OBJECTS["o_pm"] = lambda: PM(a=1, items=[1, 2])
@@ -928,6 +968,9 @@ DUMP_BATTERY: Dict[str, List[str]] = {
     "DictStrNode": ["o_dnode"],
     "Unsupported": ["o_unsupported"], "FwdUser": ["o_fwd", "o_fwd_none"], "CallableT": ["o_i1"], "ListUnsupported": ["o_l01"],
     "PM": ["o_pm"],
+    "DeepDefaults": ["o_deep", "o_deep_full"], "ListDeepDefaults": ["o_ldeep"],
+    "LitBig": ["o_grey", "o_a"], "OptLitBig": ["o_grey", "o_none"], "Pixel": ["o_pixel"], "ListPixel": ["o_lpixel"],
+    "ListShade": ["o_lshade"], "DictStrLitBig": ["o_d_lit"], "ListPerm": ["o_lperm"],
 }
 
 
